@@ -40,7 +40,8 @@ SCOPE = {"quick": "700 datasets (n<=3, m<=2, exhaustive) x 3 (naming, scheme) + 
                   "schemes + 600 sampled (n<=5, m<=4); 35 schemes; 25 configurations x one in {T,F} each; all pivot "
                   "sequences for n<=4",
          "thorough": "all datasets n<=3 m<=3 (18.3k) and n=4 m<=2 (22.6k) x 1 rotating scheme, quick's sweep, 4000 "
-                     "sampled (n<=6, m<=5); all pivot sequences for n<=4"}
+                     "sampled (n<=6, m<=5; stand-in configurations with return_at_most_one_ranking=False only for "
+                     "n<=5); all pivot sequences for n<=4"}
 CHUNK = 4
 TIMEOUT = 300
 ASSUMPTIONS = ["cplex is absent in the sandbox: configurations named Cplex* / *@standin run the repository's CPLEX "
@@ -62,6 +63,7 @@ SCHEMES = D.SCHEMES_ALL + D1_PROBES + EXTRA_MULTIPLES
 
 # ---------------------------------------------------------------------------------------------------------------
 # configurations: label -> (name in algs.CONFIGS, run with the stand-in installed?)
+STANDIN_ALL_OPTIMA_MAX = 5      # stand-in configurations are asked for all optimal consensuses only up to 5 elements
 EXTRA_STANDIN = ["ParCons", "ParCons(bound=2,aux=KwikSort)", "Exact(optimize=True)", "Exact(optimize=False)"]
 
 
@@ -73,6 +75,12 @@ def config_table():
     for name in EXTRA_STANDIN:
         tab.append((name + "@standin", name, True))
     return tab
+
+
+def harness_exc(e):
+    """The runner's per-case alarm (vlib.t2run.CaseTimeout) belongs to the harness: it must never be taken for an
+    exception of the repository."""
+    return type(e).__name__ == "CaseTimeout"
 
 
 def uses_random(base):
@@ -108,6 +116,8 @@ def run_once(base, standin, rankings, scheme, one, chooser=None, seed=0):
                         cons = alg.compute_consensus_rankings(ds, sc, one)
             return "ok", cons
         except Exception as e:      # repo exception: classified by the caller
+            if harness_exc(e):
+                raise
             kind = refusal_kind(e)
             if kind is not None:
                 return "refused", kind
@@ -117,6 +127,8 @@ def run_once(base, standin, rankings, scheme, one, chooser=None, seed=0):
 def runs(base, standin, rankings, scheme, one, n_univ, explore_max=4, seeds=(0, 1, 2), cap=200):
     """Yield (tag, status, payload) for every execution to be judged: all pivot sequences (n_univ <= explore_max) or a
     few seeds for the randomised configurations, one execution otherwise."""
+    if standin and not one and n_univ > STANDIN_ALL_OPTIMA_MAX:
+        return          # the stand-in enumerates ALL optima by no-good cuts beyond 5 elements: out of scope (see SCOPE)
     if not uses_random(base):
         st, p = run_once(base, standin, rankings, scheme, one)
         yield "", st, p
@@ -254,7 +266,9 @@ def only_types_differ(cons, universe, one):
             if sorted(str(A.val(e)) for b in r for e in b) != want:
                 return False
         return True
-    except Exception:
+    except Exception as e:
+        if harness_exc(e):
+            raise
         return False
 
 
@@ -296,7 +310,10 @@ def check_case(case):
                     why = algs.well_formed(p, universe, one)
                     shown = [A.ranking_to_raw(r) for r in p.consensus_rankings][:4]
                 except Exception as e:       # the object returned cannot even be traversed as a list of rankings
-                    why, shown = "result is not a list of rankings of buckets: %s: %s" % (type(e).__name__, e), None
+                    if harness_exc(e):
+                        raise
+                    why = "result is not a list of rankings of buckets: %s: %s" % (type(e).__name__, e)
+                    shown = None
                 if why is not None:
                     clause = "C03.W.types" if only_types_differ(p, universe, one) else "C03.W"
                     add({"clause": clause, "site": label, "detail": dict(ctx, problem=why, consensus=shown,
